@@ -201,6 +201,32 @@ func (g *Gen) validPointEnc() []byte {
 	case k < 3:
 		e := nonCanon[rng.Intn(len(nonCanon))]
 		return e[:]
+	case k < 5:
+		// a point with a structured x coordinate (small, a power of two plus or
+		// minus a little, or p minus such a value): y^2 = (1 + x^2)/(1 - d x^2)
+		for {
+			x := g.structuredInt()
+			xx := new(big.Int).Mul(x, x)
+			xx.Mod(xx, alpha.P)
+			num := new(big.Int).Add(big.NewInt(1), xx)
+			den := new(big.Int).Mul(alpha.D, xx)
+			den.Sub(big.NewInt(1), den).Mod(den, alpha.P)
+			di := new(big.Int).ModInverse(den, alpha.P)
+			if di == nil {
+				continue
+			}
+			y2 := num.Mul(num, di)
+			y2.Mod(y2, alpha.P)
+			y := new(big.Int).ModSqrt(y2, alpha.P)
+			if y == nil {
+				continue
+			}
+			if rng.Bool(0.5) {
+				y.Sub(alpha.P, y).Mod(y, alpha.P)
+			}
+			e := alpha.Encode(x, y)
+			return e[:]
+		}
 	default:
 		for {
 			b := rng.Bytes(32)
@@ -216,6 +242,54 @@ func (g *Gen) validPointEnc() []byte {
 			return e[:]
 		}
 	}
+}
+
+// structuredInt returns a field value with structure: small, near a power of
+// two, with few non-zero 51-bit limbs, or p minus such a value.
+func (g *Gen) structuredInt() *big.Int {
+	rng := g.rng
+	v := new(big.Int)
+	switch rng.Intn(4) {
+	case 0:
+		v.SetInt64(int64(rng.Intn(1 << 20)))
+	case 1:
+		v.Lsh(big.NewInt(1), uint(rng.Intn(255)))
+		v.Add(v, big.NewInt(int64(rng.Intn(64)-32)))
+	case 2:
+		v = alpha.FromLE(rng.Bytes(1 + rng.Intn(20)))
+	default:
+		v = g.limbStructured()
+	}
+	v.Mod(v, alpha.P)
+	if rng.Bool(0.4) {
+		v.Sub(alpha.P, v).Mod(v, alpha.P)
+	}
+	return v
+}
+
+// limbStructured draws each 51-bit limb independently from {0, 1, all ones,
+// small, random}.
+func (g *Gen) limbStructured() *big.Int {
+	rng := g.rng
+	v := new(big.Int)
+	for i := 4; i >= 0; i-- {
+		var l uint64
+		switch rng.Intn(10) {
+		case 0, 1, 2, 3:
+			l = 0
+		case 4, 5:
+			l = 1
+		case 6:
+			l = 1<<51 - 1
+		case 7:
+			l = uint64(rng.Intn(1 << 16))
+		default:
+			l = rng.Uint64() >> 13
+		}
+		v.Lsh(v, 51)
+		v.Add(v, new(big.Int).SetUint64(l))
+	}
+	return v
 }
 
 func (g *Gen) offCurveEnc() []byte {
@@ -265,7 +339,10 @@ func (g *Gen) elemBytes() (string, []byte) {
 		b := make([]byte, 32)
 		b[0] = byte(rng.Intn(3))
 		return "Element.SetBytes", b
-	case k < 6:
+	case k < 5:
+		e := alpha.LE32(g.limbStructured())
+		return "Element.SetBytes", e[:]
+	case k < 7:
 		b := rng.Bytes(64)
 		if rng.Bool(0.3) {
 			for i := range b {
